@@ -483,11 +483,14 @@ func (hookC13) event(x *fleetExec, e engine.Event) bool {
 		if err == nil {
 			x.fail("error-identity", sig, refusedWhat+" was accepted", "an error", fmt.Sprint(got))
 		}
-		var batch []float64
-		var berr error
-		x.lib("GetValuesAtQuantiles", sig, func() { batch, berr = s.GetValuesAtQuantiles([]float64{0.5, q}) })
-		if berr == nil {
-			x.fail("error-identity", sig, fmt.Sprintf("GetValuesAtQuantiles([0.5 %v]) was accepted (sketch empty: %v)", q, nd.model.IsEmpty()), "an error", fmt.Sprint(batch))
+		// the batch query must refuse the list wherever the bad quantile stands
+		for _, list := range [][]float64{{0.5, q}, {q, 0.5}, {0.25, q, 0.75}, {q}} {
+			var batch []float64
+			var berr error
+			x.lib("GetValuesAtQuantiles", sig, func() { batch, berr = s.GetValuesAtQuantiles(list) })
+			if berr == nil {
+				x.fail("error-identity", sig, fmt.Sprintf("GetValuesAtQuantiles(%v) was accepted (sketch empty: %v)", list, nd.model.IsEmpty()), "an error", fmt.Sprint(batch))
+			}
 		}
 		x.st.ProbeIf(math.IsNaN(q), "refused-nan-quantile")
 		x.st.ProbeIf(valid, "refused-query-on-empty-sketch")
